@@ -618,16 +618,8 @@ void f_unique_mapping (void) {
   mtable = m->table;
   numkeys = 0;
 
-  if (nmask > MAP_HASH_TABLE_SIZE)
-    {
-      nmask |= nmask >> 1;
-      nmask |= nmask >> 2;
-      nmask |= nmask >> 4;
-      if (size & 0xff00)
-        nmask |= nmask >> 8;
-    }
-  else
-    nmask = MAP_HASH_TABLE_SIZE - 1;
+  /* the mask of the table that was really allocated: allocate_mapping() clamps the size to MaxMappingSize */
+  nmask = m->table_size;
   j = mask;
   sv = v->item;
 
@@ -645,8 +637,7 @@ void f_unique_mapping (void) {
                   if (growMap (m))
                     {
                       mtable = m->table;
-                      nmask <<= 1;
-                      nmask--;
+                      nmask = m->table_size;
                     }
                   else
                     {
